@@ -64,7 +64,7 @@ def r1_tagging(R) -> None:
             if len(vals) != 1 or vals[0][0] == PARAM or vals[0][1] is None:
                 raise Unsupported(f'{q}: `{part.id}` has {len(vals)} definitions at the return')
             site, e = vals[0]
-        x = f.expand(site, e)
+        x = f.expand(site, e, stop=(left, right))
         lc = x if isinstance(x, (ast.ListComp, ast.GeneratorExp)) else f.as_listcomp(site, x)
         if lc is None and is_call(x, 'list', 'tuple') and len(x.args) == 1 and isinstance(x.args[0], (ast.ListComp, ast.GeneratorExp)):
             lc = x.args[0]
@@ -74,7 +74,7 @@ def r1_tagging(R) -> None:
                 continue
             raise Unsupported(f'{q}: `{text(part)}` = `{text(x)[:70]}` is not a comprehension over parse_terms(<side>)')
         g = lc.generators[0]
-        it = f.expand(site, g.iter)
+        it = f.expand(site, g.iter, stop=(left, right))
         if not (is_call(it, 'parse_terms') and len(it.args) == 1):
             raise Unsupported(f'{q}: `{text(part)}` iterates `{text(it)[:50]}`')
         side = text(it.args[0])
@@ -326,18 +326,27 @@ def _check_lag_spec(R, q, nm, agg, floor, v, sym_param, where) -> None:
         raise Unsupported(f'{q}: the symbols `{nm}` is taken over are `{text(nis)[:70]}`')
     ng = nis.generators[0]
     conds = [(a_, tr) for c_ in ng.ifs for (a_, tr) in nnf_atoms(c_, True)]
-    excl = None
-    if len(conds) == 1 and isinstance(conds[0][0], ast.Compare) and isinstance(conds[0][0].ops[0], ast.In) and conds[0][1] is False \
-            and text(conds[0][0].left) == f'{text(ng.target)}.type' and isinstance(conds[0][0].comparators[0], (ast.Tuple, ast.List, ast.Set)):
-        excl = {text(e).split('.')[-1] for e in conds[0][0].comparators[0].elts}
-    if excl is None and conds:
-        # conjunction of `s.type != Type.X`
-        if all(isinstance(a_, ast.Compare) and isinstance(a_.ops[0], ast.Eq) and tr is False and text(a_.left) == f'{text(ng.target)}.type' for (a_, tr) in conds):
-            excl = {text(a_.comparators[0]).split('.')[-1] for (a_, _tr) in conds}
-    if excl is None:
-        raise Unsupported(f'{q}: filter of the variable-like symbols `{text(nis)[:80]}` not modelled')
+    # which Type members pass the filter: evaluate the membership atoms for each member of the enumeration
+    members = set(fold_enum(R.repo, P, 'Type'))
+    tvt = f'{text(ng.target)}.type'
+    included = set(members)
+    for (a_, tr) in conds:
+        if not (isinstance(a_, ast.Compare) and len(a_.ops) == 1 and text(a_.left) == tvt):
+            raise Unsupported(f'{q}: filter of the variable-like symbols `{text(nis)[:80]}` not modelled')
+        c0 = a_.comparators[0]
+        if isinstance(a_.ops[0], ast.In) and isinstance(c0, (ast.Tuple, ast.List, ast.Set)):
+            named = {text(e).split('.')[-1] for e in c0.elts}
+        elif isinstance(a_.ops[0], ast.Eq):
+            named = {text(c0).split('.')[-1]}
+        else:
+            raise Unsupported(f'{q}: filter of the variable-like symbols `{text(nis)[:80]}` not modelled')
+        if not named <= members:
+            raise Unsupported(f'{q}: filter names {sorted(named - members)} which are not Type members')
+        included &= named if tr else (members - named)
+    excl = members - included
     R.check(text(ng.iter) == sym_param and excl == NON_INDEXED, q, f'non-indexed:{nm}:{sorted(excl)}', 'lags/leads are taken over everything except functions, keywords, verbatim',
-            f'`{nm}` is taken over symbols excluding {sorted(excl)} (of `{text(ng.iter)}`), expected all of `{sym_param}` except {sorted(NON_INDEXED)}', where=where)
+            f'`{nm}` is taken over symbols of `{text(ng.iter)}` excluding {sorted(excl)}, expected all of `{sym_param}` except {sorted(NON_INDEXED)} '
+            f'(parameters and errors written with an index carry lags/leads too)', where=where)
 
 
 def r5_definition(R) -> None:
@@ -399,29 +408,27 @@ def r5_definition(R) -> None:
     fst = _stmt_of(ft.fi.node, fse, fcall)
     fwhere = f'{ft.fi.module.relpath}:{fcall.lineno}'
     fvals = {k.arg: fse.value(fst, k.value) for k in fcall.keywords if k.arg}
-    diffs = []
-    for nm in ('lags', 'leads'):
-        got = text(canon(fvals[nm])).replace(fsym, sym_param) if fsym != sym_param else text(canon(fvals[nm]))
-        if got != py_forms[nm]:
-            diffs.append(f'{nm}: `{got[:120]}`')
-    # name lists: first argument of the per-field definition helper, and the numbering order
+    # the same specification is checked on the Fortran side (not a textual comparison: either side may be spelled differently)
+    for nm, agg, floor in (('lags', 'min', 'min_lags'), ('leads', 'max', 'min_leads')):
+        _check_lag_spec(R, fq, nm, agg, floor, canon(fvals[nm]), fsym, fwhere)
     for nm, ty in FIELDS.items():
         v = fvals[nm]
         lists = [x for x in ast.walk(v) if isinstance(x, ast.ListComp) and text(x.elt).endswith('.name')]
         if not lists:
             raise Unsupported(f'{fq}: field `{nm}` = `{text(v)[:70]}` does not mention a list of symbol names')
-        forms = {text(canon(x)) for x in lists}
-        want = py_forms[nm].replace(sym_param, fsym) if fsym != sym_param else py_forms[nm]
-        if forms != {want}:
-            diffs.append(f'{nm}: `{sorted(forms)[0][:120]}`')
-    R.check(not diffs, fq, 'twin-block', 'name lists and lag/lead computation agree with build_model_definition',
-            'build_fortran_definition computes name lists / lags / leads differently from build_model_definition: ' + '; '.join(diffs)[:300], where=fwhere)
+        for x in lists[:1]:
+            _check_name_list(R, fq, nm, ty, canon(x), fsym, fwhere)
     # numbering: variables are numbered endogenous, exogenous, parameters, errors (the order of NAMES)
     chains = [x for x in ast.walk(ft.fi.node) if is_call(x, 'itertools.chain', 'chain') and len(x.args) == 4]
     if chains:
         cst = _stmt_of(ft.fi.node, fse, chains[0])
-        got = [text(canon(fse.value(cst, a_))) for a_ in chains[0].args]
-        want = [py_forms[nm].replace(sym_param, fsym) if fsym != sym_param else py_forms[nm] for nm in FIELDS]
+        got = []
+        for a_, (nm, ty) in zip(chains[0].args, FIELDS.items()):
+            v_ = canon(fse.value(cst, a_))
+            g_ = v_.generators[0] if isinstance(v_, ast.ListComp) and len(v_.generators) == 1 else None
+            sel = text(g_.ifs[0]) if g_ is not None and len(g_.ifs) == 1 else '?'
+            got.append(sel.split('Type.')[-1] if 'Type.' in sel else sel)
+        want = list(FIELDS.values())
         R.check(got == want, fq, 'twin-numbering', 'Fortran variable numbers follow ENDOGENOUS + EXOGENOUS + PARAMETERS + ERRORS',
                 f'variables are numbered over `{[g_[:40] for g_ in got]}`', where=f'{ft.fi.module.relpath}:{chains[0].lineno}')
 
